@@ -848,3 +848,9 @@ v("c11-nested-parallel-flattened-and-kept", "C11", "PARALLEL-MEMBERS", L + "visi
 v("c11-parallel-members-copied", "C11", "PARALLEL-MEMBERS", L + "visitor.py",
   "        self.visitors = visitors\n        self.skipping: list[Any] = [None] * len(visitors)\n",
   "        self.visitors = tuple(visitors)\n        self.skipping: list[Any] = [None] * len(self.visitors)\n", expect="silent")
+
+# -- round 5: C13 ------------------------------------------------------------------------------------------
+v("c13-omitted-optional-variable-stops-coercion", "C13", "INDEPENDENT-KEYS", E + "values.py",
+  "                # Non-provided values for nullable variables are omitted.\n                continue\n", "                # Non-provided values for nullable variables are omitted.\n                break\n")
+v("c13-literal-validation-returns-in-field-loop", "C13", "VALIDATOR-EXHAUSTIVE", U + "validate_input_value.py",
+  "                if isinstance(field_value_node, VariableNode) and not context.static:\n", "                if isinstance(field_value_node, VariableNode) and context.static:\n                    return\n                if isinstance(field_value_node, VariableNode) and not context.static:\n")
